@@ -22,10 +22,14 @@ def main():
             g = common.GROUPS[case['group']]
             rec.run_group(g, only_input=common.parse_input(case['input']))
         else:
-            for name, g in common.GROUPS.items():
+            for name, g in list(common.GROUPS.items()):
+                if g.fn.__module__ != mod.__name__:
+                    continue            # groups registered by an imported sibling module
                 if a.group and name not in a.group:
                     continue
                 rec.run_group(g)
+            if getattr(mod, 'EXHAUSTIVE', None) is not None:
+                rec.exhaustive = bool(mod.EXHAUSTIVE.get(a.tier, True)) if isinstance(mod.EXHAUSTIVE, dict) else bool(mod.EXHAUSTIVE)
         rep = rec.report(getattr(mod, 'RULE', ''))
         rep['bound'] = getattr(mod, 'BOUND', {}).get(a.tier, '')
         rep['petl_file'] = petl.__file__
